@@ -10,6 +10,7 @@
 From Coq Require Import List Arith Bool.
 Import ListNotations.
 From ZI Require Import Lib.Util Model.Decl Spec.Provided Proofs.Decl.
+From ZI Require Import Model.DeclKernelPrims Gen.DeclKernel Proofs.DeclKernel.
 
 (* The central statement: after every history, for every instance / class object t and every
    class c, what the model answers to providedBy(t) and implementedBy(c) lies between the two
@@ -125,6 +126,107 @@ Theorem C01_ledger_impl_is_inheritance : forall g ops c x,
   (In x (impl_hi (lrun g ops) c) <-> Impl lc_asked (lcs (lrun g ops)) c x).
 Proof. exact ledger_impl_is_inheritance_lemma. Qed.
 Print Assumptions C01_ledger_impl_is_inheritance.
+
+(* ---- The tie to the source TEXT.  Gen/DeclKernel.v is regenerated on every run from
+   /repo/src/zope/interface/declarations.py by harness/translate/decl.py (fail closed); its
+   functions gen_* are statement-by-statement translations over the primitives of
+   Model/DeclKernelPrims.v.  Each equals the corresponding definition of Model/Decl.v (the
+   object of the theorems above, eviction on) on every embedded state [embed st]. *)
+
+(* Declaration._add_interfaces_to_cls = the strip [keepnew] + the class specification *)
+Theorem C01_generated_add_interfaces_to_cls_eq_model : forall g st x l d,
+  gen_add_interfaces_to_cls g (embed_exc st x) (map NI l) (RClass d) =
+  map NI (keepnew (cflat g st d) l) ++ [NC d].
+Proof. exact generated_add_interfaces_to_cls_eq. Qed.
+Print Assumptions C01_generated_add_interfaces_to_cls_eq_model.
+
+(* Provides.changed: nothing when the change originated at the specification itself, otherwise
+   the specification leaves InstanceDeclarations if it is the cached one *)
+Theorem C01_generated_Provides_changed_eq_model : forall g s self o,
+  gen_Provides_changed g s self o =
+  if p_origin_is o self then s
+  else if p_opt_is (p_cache_get s (fst self)) self then p_cache_del s (fst self) else s.
+Proof. exact generated_Provides_changed_eq. Qed.
+Print Assumptions C01_generated_Provides_changed_eq_model.
+
+(* _classImplements_ordered: elision, dedupe, bases = declared + the bases' specifications (the
+   stored __bases__ of the result are [spec_bases] of the model's record: [embed]), and the
+   notification through Provides.changed is the model's eviction *)
+Theorem C01_generated_classImplements_ordered_eq_model : forall g st x c b a,
+  NoDup (map fst (cache st)) ->
+  gen_classImplements_ordered g (embed_exc st x) (NC c) (map NI b) (map NI a) =
+  embed_exc (class_ordered true g st c b a) x.
+Proof. exact generated_classImplements_ordered_eq. Qed.
+Print Assumptions C01_generated_classImplements_ordered_eq_model.
+
+Theorem C01_generated_classImplements_eq_model : forall g st x c l,
+  NoDup (map fst (cache st)) ->
+  gen_classImplements g (embed_exc st x) (RClass c) (map NI l) = embed_exc (class_implements true g st c l) x.
+Proof. exact generated_classImplements_eq. Qed.
+Print Assumptions C01_generated_classImplements_eq_model.
+
+Theorem C01_generated_classImplementsOnly_eq_model : forall g st x c l,
+  NoDup (map fst (cache st)) ->
+  gen_classImplementsOnly g (embed_exc st x) (RClass c) (map NI l) = embed_exc (class_only true g st c l) x.
+Proof. exact generated_classImplementsOnly_eq. Qed.
+Print Assumptions C01_generated_classImplementsOnly_eq_model.
+
+Theorem C01_generated_classImplementsFirst_eq_model : forall g st x c i,
+  NoDup (map fst (cache st)) ->
+  gen_classImplementsFirst g (embed_exc st x) (RClass c) (NI i) = embed_exc (class_ordered true g st c [i] []) x.
+Proof. exact generated_classImplementsFirst_eq. Qed.
+Print Assumptions C01_generated_classImplementsFirst_eq_model.
+
+(* the Provides factory: cache hit or construction + store *)
+Theorem C01_generated_Provides_eq_model : forall g st x d args st1 k,
+  provides g st d args = (st1, k) ->
+  gen_Provides g (embed_exc st x) (RClass d, map NI args) =
+  (embed_exc st1 x, ((RClass d, map NI args), map NI k ++ [NC d])).
+Proof. exact generated_Provides_eq. Qed.
+Print Assumptions C01_generated_Provides_eq_model.
+
+Theorem C01_generated_directlyProvidedBy_eq_model : forall g st x t,
+  gen_directlyProvidedBy g (embed_exc st x) t = map NI (dpb_raw st t) /\
+  p_decl_interfaces (gen_directlyProvidedBy g (embed_exc st x) t) = map NI (dpb st t).
+Proof. exact generated_directlyProvidedBy_both. Qed.
+Print Assumptions C01_generated_directlyProvidedBy_eq_model.
+
+(* directlyProvides, instance branch (through the factory) and class branch (ClassProvides) *)
+Theorem C01_generated_directlyProvides_eq_model : forall g st x t l,
+  target_live st t ->
+  gen_directlyProvides g (embed_exc st x) t (map NI l) = embed_exc (directly g st t l) x.
+Proof. exact generated_directlyProvides_eq. Qed.
+Print Assumptions C01_generated_directlyProvides_eq_model.
+
+Theorem C01_generated_alsoProvides_eq_model : forall g st x t l,
+  target_live st t ->
+  gen_alsoProvides g (embed_exc st x) t (map NI l) = embed_exc (directly g st t (dpb st t ++ l)) x.
+Proof. exact generated_alsoProvides_eq. Qed.
+Print Assumptions C01_generated_alsoProvides_eq_model.
+
+(* noLongerProvides, including the ValueError test *)
+Theorem C01_generated_noLongerProvides_eq_model : forall g st t i,
+  target_live st t ->
+  let st' := directly g st t (filter (fun y => negb (ext g y i)) (dpb st t)) in
+  gen_noLongerProvides g (embed st) t (NI i) =
+  embed_exc st' (if raises g st' (NoLongerProvides t i) then Some exc_ValueError else None).
+Proof. exact generated_noLongerProvides_eq. Qed.
+Print Assumptions C01_generated_noLongerProvides_eq_model.
+
+(* every declaration step of a history, through the generated kernel, is the model's step;
+   its hypothesis about the cache holds in every reachable state *)
+Theorem C01_generated_step_eq_model : forall g st o,
+  NoDup (map fst (cache st)) ->
+  (decl_class o <> None \/ decl_target o <> None) ->
+  (forall t, decl_target o = Some t -> target_live st t) ->
+  gen_step g (embed st) o =
+  embed_exc (step true g st o) (if raises g (step true g st o) o then Some exc_ValueError else None).
+Proof. exact generated_step_eq_spelled. Qed.
+Print Assumptions C01_generated_step_eq_model.
+
+Theorem C01_generated_cache_keys_unique : forall ev g ops, NoDup (map fst (cache (run ev g ops))).
+Proof. exact cku_run. Qed.
+Print Assumptions C01_generated_cache_keys_unique.
 
 (* ---- non-vacuity.  I1 extends I0; I2 alone.  C2(C0, C1): multiple inheritance. *)
 Definition ex_g : igraph := [[]; [0]; []].
